@@ -326,6 +326,26 @@ Qed.
 Theorem xer_encoder_well_behaved : forall can tag v, well_behaved false (xer_encoder can tag v).
 Proof. intros. apply step_inner_well_behaved, xer_encode_scripted. Qed.
 
+(* through asn_encode: the size the application is told is the number of octets its callback got, at every
+   nesting depth; a callback failing at any invocation k gives -1/EIO after exactly k+1 invocations with
+   the first k chunks delivered; the asserts of asn_encode stay quiet *)
+Theorem xer_api : forall can tag v, exists calls delivered r,
+  fault_free_run false (xer_encoder can tag v) calls delivered r /\
+  calls = length delivered /\
+  (0 <= encoded r -> encoded r = total delivered /\ err r = E0) /\
+  (encoded r < 0 -> encoded r = -1 /\ (err r = EBADF \/ err r = ENOENT)) /\
+  (forall k, (k < calls)%nat ->
+     asn_encode (Some (user_cb (Some k))) true (Op false (xer_encoder can tag v)) (0%nat, []) =
+     Done ((S k, firstn k delivered), {| encoded := -1; err := EIO |})).
+Proof.
+  intros can tag v.
+  pose proof (xer_encoder_well_behaved can tag v) as Hwb.
+  destruct (size_accounting false _ Hwb) as (calls & delivered & r & Hrun & Hc & Hok & Hfail).
+  exists calls, delivered, r.
+  split; [exact Hrun|]. split; [exact Hc|]. split; [exact Hok|]. split; [exact Hfail|].
+  intros k Hk. exact (cb_failure_eio false _ Hwb calls delivered r Hrun k Hk).
+Qed.
+
 (* the CANONICAL-XER SET OF detour keeps the books as well: what the sorted buffers hold is
    what the elements counted (the C's assert(control_size == er.encoded) cannot fire) *)
 Theorem setof_canonical_control_size : forall mode vs il bufs,
